@@ -18,7 +18,6 @@ import (
 	"math"
 	"os"
 	"reflect"
-	"runtime/metrics"
 	"sort"
 	"strconv"
 	"strings"
@@ -623,7 +622,7 @@ func mutate(r *hx.Rng, b []byte) []byte {
 
 func genDec(a hx.Args) {
 	r := hx.NewRng(a.Seed)
-	per := a.N(5, 40)
+	per := a.N(14, 60)
 	hangQuota := 3
 	emit := func(e *entry, ver int, b []byte) {
 		hx.Emit("dec %s %d %s", e.name, ver, hx.Hex(nonNil(b)))
@@ -673,7 +672,7 @@ func genDec(a hx.Args) {
 			}
 			step := 1
 			if a.Tier != "thorough" {
-				step = 5
+				step = 100
 			}
 			for x := int(r.Intn(step)); x < 256; x += step {
 				emit(e, ver, []byte{byte(x)})
@@ -701,15 +700,53 @@ func nonNil(b []byte) []byte {
 }
 
 const (
-	allocBase   = 64 << 10
+	allocBase   = 4 << 10
 	allocFactor = 1024
 )
 
-var allocSample = []metrics.Sample{{Name: "/gc/heap/allocs:bytes"}}
+var maxRatio int
 
-func allocBytes() uint64 {
-	metrics.Read(allocSample)
-	return allocSample[0].Value.Uint64()
+// deepSize: bytes of memory reachable from a decoded value (backing arrays by capacity, strings, pointees, tag maps). It is
+// what ReadFrom allocated for the value (plus what it aliases of the input), measured exactly and without runtime statistics;
+// it is also taken after a failed decode, where the partially filled value still holds every `make([]T, l)` done before the error.
+func deepSize(v reflect.Value) uint64 {
+	t := v.Type()
+	switch v.Kind() {
+	case reflect.String:
+		return uint64(v.Len())
+	case reflect.Ptr:
+		if v.IsNil() {
+			return 0
+		}
+		return uint64(t.Elem().Size()) + deepSize(v.Elem())
+	case reflect.Slice:
+		if v.IsNil() {
+			return 0
+		}
+		n := uint64(v.Cap()) * uint64(t.Elem().Size())
+		switch t.Elem().Kind() {
+		case reflect.String, reflect.Ptr, reflect.Slice, reflect.Struct:
+			for i := 0; i < v.Len(); i++ {
+				n += deepSize(v.Index(i))
+			}
+		}
+		return n
+	case reflect.Struct:
+		if t == tagsType {
+			var n uint64
+			v.Addr().Interface().(*kmsg.Tags).Each(func(_ uint32, b []byte) { n += 64 + uint64(len(b)) })
+			return n
+		}
+		var n uint64
+		for i := 0; i < t.NumField(); i++ {
+			switch t.Field(i).Type.Kind() {
+			case reflect.String, reflect.Ptr, reflect.Slice, reflect.Struct:
+				n += deepSize(v.Field(i))
+			}
+		}
+		return n
+	}
+	return 0
 }
 
 // decodeOnce: ReadFrom into a fresh value under recover + deadline; "ok <tree>" | "err" | "panic:…" | "hang".
@@ -737,9 +774,8 @@ func runDec(t []string) string {
 		c := e.mk()
 		setVersion(c, e, ver)
 		in := append([]byte(nil), src...)
-		a0 := allocBytes()
 		err := c.ReadFrom(in)
-		alloc = allocBytes() - a0
+		alloc = deepSize(reflect.ValueOf(c).Elem())
 		if err != nil {
 			return "err"
 		}
@@ -756,7 +792,11 @@ func runDec(t []string) string {
 	a := alloc <= allocBase+allocFactor*uint64(len(src))
 	if len(src) > 0 {
 		ratio := int(alloc / uint64(len(src)))
-		hx.St.Inc("dec.alloc-per-input-byte." + bucket(ratio))
+		hx.St.Inc("dec.value-bytes-per-input-byte." + bucket(ratio))
+		if ratio > maxRatio {
+			maxRatio = ratio
+			hx.St["dec.value-bytes-per-input-byte.max"] = ratio
+		}
 	}
 	// UnsafeReadFrom must agree
 	u := true
